@@ -4,6 +4,7 @@ import Jb.Proofs.EngineHalfTone
 import Jb.Proofs.Duration
 import Jb.Proofs.Speech
 import Jb.Props.C08
+import Jb.Props.C02
 
 set_option linter.unusedSectionVars false
 set_option linter.unusedVariables false
@@ -214,22 +215,17 @@ theorem synthesize_speed (fx : Fix) (big : K) (voices : List ParsedVoice) (iw : 
   obtain ⟨inp, durs, w, hin, hD, hW, hwl, hdl, hdp⟩ :=
     synthesize_total' fx big voices iw h v0 hv0 (ops ++ [.speed s]) f labels times
       (by rw [hal]; intro hc; cases hc)
-  obtain ⟨-, -, hidl⟩ := engineIn_total big voices iw h v0 hv0 (ops ++ [.speed s]) labels times
-      (by rw [hal]; intro hc; cases hc) |>.choose_spec
-  have hinp : (engineIn_total big voices iw h v0 hv0 (ops ++ [.speed s]) labels times
-      (by rw [hal]; intro hc; cases hc)).choose = inp := by
-    have := (engineIn_total big voices iw h v0 hv0 (ops ++ [.speed s]) labels times
-      (by rw [hal]; intro hc; cases hc)).choose_spec.1
-    rw [hin, Outcome.ok.injEq] at this
-    exact this.symm
-  rw [hinp] at hidl
+  have hidl : inp.duration.length = labels.length * v0.global.nstates := by
+    obtain ⟨inp', hin', -, hl⟩ := engineIn_total big voices iw h v0 hv0 (ops ++ [.speed s]) labels times
+      (by rw [hal]; intro hc; cases hc)
+    rw [hin, Outcome.ok.injEq] at hin'
+    subst hin'; exact hl
   have hnst : 0 < v0.global.nstates := (h.head v0 hv0).nstates_pos
   have hlab : 0 < labels.length := List.length_pos_of_ne_nil hne
   have hdne : inp.duration ≠ [] := by
     intro he
-    rw [he] at hidl
+    have h0 : inp.duration.length = 0 := by rw [he]; rfl
     have : 0 < labels.length * v0.global.nstates := Nat.mul_pos hlab hnst
-    simp at hidl
     omega
   refine ⟨durs, w, hW, ?_, hdl, hdp, ?_⟩
   · rw [hwl, condOf_snoc_speed]; rfl
@@ -239,6 +235,724 @@ theorem synthesize_speed (fx : Fix) (big : K) (voices : List ParsedVoice) (iw : 
     rw [durationCreate_sum inp.duration _ durs hdne hD, hidl,
       frames1_eq big voices iw labels times inp hin, condOf_snoc_speed]
     rfl
+
+/-! ### the generator parameters (`Engine::generator` up to the `SpeechGenerator`), from the voices -/
+
+/-- `Engine::load` + setter history + `Engine::generator` up to the construction of the `SpeechGenerator` -/
+def params (big : K) (voices : List ParsedVoice) (iw : IW K) (ops : List (CondOp K)) (f : Condition K → Bool)
+    (labels : List (List Char)) (times : List (K × K)) : Outcome Unit (GenParams K) :=
+  match voices with
+  | [] => .panic "voice_set.rs:first"
+  | v0 :: _ => (engineIn big voices iw labels times).bind fun inp =>
+      engineParams (condOf v0 ops) (f (condOf v0 ops)) inp
+
+/-- the state durations `Engine::generator` chooses -/
+def durations (big : K) (voices : List ParsedVoice) (iw : IW K) (ops : List (CondOp K)) (f : Condition K → Bool)
+    (labels : List (List Char)) (times : List (K × K)) : Outcome Unit (List Nat) :=
+  match voices with
+  | [] => .panic "voice_set.rs:first"
+  | v0 :: _ => (engineIn big voices iw labels times).bind fun inp =>
+      engineDurations (condOf v0 ops) (f (condOf v0 ops)) inp
+
+/-- the trajectory of stream `j` for given state durations -/
+def stream (big : K) (voices : List ParsedVoice) (iw : IW K) (ops : List (CondOp K))
+    (labels : List (List Char)) (times : List (K × K)) (durs : List Nat) (j : Nat) : Outcome Unit (List (List K)) :=
+  match voices with
+  | [] => .panic "voice_set.rs:first"
+  | v0 :: _ => (engineIn big voices iw labels times).bind fun inp => engineStream (condOf v0 ops) inp durs j
+
+theorem params_eq_engine (big : K) (v0 : ParsedVoice) (vs : List ParsedVoice) (iw : IW K)
+    (ops : List (CondOp K)) (f : Condition K → Bool) (labels : List (List Char)) (times : List (K × K))
+    (inp : EngineIn K) (hin : engineIn big (v0 :: vs) iw labels times = .ok inp) :
+    params big (v0 :: vs) iw ops f labels times = engineParams (condOf v0 ops) (f (condOf v0 ops)) inp := by
+  unfold params; simp only; rw [hin]; rfl
+
+theorem durations_eq_engine (big : K) (v0 : ParsedVoice) (vs : List ParsedVoice) (iw : IW K)
+    (ops : List (CondOp K)) (f : Condition K → Bool) (labels : List (List Char)) (times : List (K × K))
+    (inp : EngineIn K) (hin : engineIn big (v0 :: vs) iw labels times = .ok inp) :
+    durations big (v0 :: vs) iw ops f labels times = engineDurations (condOf v0 ops) (f (condOf v0 ops)) inp := by
+  unfold durations; simp only; rw [hin]; rfl
+
+theorem stream_eq_engine (big : K) (v0 : ParsedVoice) (vs : List ParsedVoice) (iw : IW K)
+    (ops : List (CondOp K)) (labels : List (List Char)) (times : List (K × K)) (durs : List Nat) (j : Nat)
+    (inp : EngineIn K) (hin : engineIn big (v0 :: vs) iw labels times = .ok inp) :
+    stream big (v0 :: vs) iw ops labels times durs j = engineStream (condOf v0 ops) inp durs j := by
+  unfold stream; simp only; rw [hin]; rfl
+
+/-- what `engineParams` returns on well-formed stage inputs, field by field -/
+theorem engineParams_total (c : Condition K) (b : Bool) (inp : EngineIn K) (h : EngineWF c inp) :
+    ∃ p, engineParams c b inp = .ok p ∧ engineDurations c b inp = .ok p.durations ∧
+      p.durations.length = inp.duration.length ∧ (∀ d ∈ p.durations, 1 ≤ d) ∧
+      engineStream c inp p.durations 0 = .ok p.spectrum ∧ engineStream c inp p.durations 1 = .ok p.lf0 ∧
+      (inp.nstream = 3 → engineStream c inp p.durations 2 = .ok p.lpf) ∧
+      (inp.nstream = 2 → p.lpf = p.lf0.map fun _ => []) ∧
+      p.spectrum.length = p.durations.sum ∧ p.lf0.length = p.durations.sum ∧ p.lpf.length = p.durations.sum := by
+  obtain ⟨durs, hD, hdl, hdp⟩ := engineDurations_total c inp h b
+  have hn2 : 2 ≤ inp.nstream := by rcases h.nstream with e | e <;> omega
+  obtain ⟨sp, s0, hs0, hS0, hspl, -⟩ := engineStream_total c inp h durs hdl 0 (by omega)
+  obtain ⟨lf0, s1, hs1, hS1, hlfl, hlfr⟩ := engineStream_total c inp h durs hdl 1 (by omega)
+  rcases h.nstream with e | e
+  · refine ⟨⟨durs, sp, lf0, lf0.map fun _ => []⟩, ?_, hD, hdl, hdp, hS0, hS1, fun e3 => by omega, fun _ => rfl,
+      hspl, hlfl, by simp [hlfl]⟩
+    unfold engineParams
+    rw [hD]
+    simp only
+    rw [hS0, hS1]
+    simp [e]
+  · obtain ⟨lpf, s2, hs2, hS2, hlpl, -⟩ := engineStream_total c inp h durs hdl 2 (by omega)
+    refine ⟨⟨durs, sp, lf0, lpf⟩, ?_, hD, hdl, hdp, hS0, hS1, fun _ => hS2, fun e2 => by omega, hspl, hlfl, hlpl⟩
+    unfold engineParams
+    rw [hD]
+    simp only
+    rw [hS0, hS1]
+    simp [e, hS2]
+
+/-- two conditions that choose the same durations, on the same well-formed stage inputs: the generator parameters
+    exist for both, with the same durations and frame count; a trajectory is the same as soon as `engineStream`
+    is for that stream -/
+theorem engineParams_compare (c c' : Condition K) (b b' : Bool) (inp : EngineIn K)
+    (h : EngineWF c inp) (h' : EngineWF c' inp) (hD : engineDurations c' b' inp = engineDurations c b inp) :
+    ∃ p p', engineParams c b inp = .ok p ∧ engineParams c' b' inp = .ok p' ∧
+      p'.durations = p.durations ∧
+      p'.spectrum.length = p.spectrum.length ∧ p'.lf0.length = p.lf0.length ∧ p'.lpf.length = p.lpf.length ∧
+      ((∀ durs, engineStream c' inp durs 0 = engineStream c inp durs 0) → p'.spectrum = p.spectrum) ∧
+      ((∀ durs, engineStream c' inp durs 1 = engineStream c inp durs 1) → p'.lf0 = p.lf0) ∧
+      ((∀ durs, engineStream c' inp durs 2 = engineStream c inp durs 2) → p'.lpf = p.lpf) := by
+  obtain ⟨p, hp, hd, -, -, h0, h1, h2, h2n, l0, l1, l2⟩ := engineParams_total c b inp h
+  obtain ⟨p', hp', hd', -, -, h0', h1', h2', h2n', l0', l1', l2'⟩ := engineParams_total c' b' inp h'
+  have hdd : p'.durations = p.durations := by
+    rw [hD, hd, Outcome.ok.injEq] at hd'; exact hd'.symm
+  refine ⟨p, p', hp, hp', hdd, by rw [l0, l0', hdd], by rw [l1, l1', hdd], by rw [l2, l2', hdd], ?_, ?_, ?_⟩
+  · intro e
+    rw [e, hdd, h0, Outcome.ok.injEq] at h0'; exact h0'.symm
+  · intro e
+    rw [e, hdd, h1, Outcome.ok.injEq] at h1'; exact h1'.symm
+  · intro e
+    rcases h.nstream with e2 | e3
+    · rw [h2n e2, h2n' e2, List.map_const', List.map_const', l1, l1', hdd]
+    · have a := h2 e3
+      have a' := h2' e3
+      rw [e, hdd, a, Outcome.ok.injEq] at a'; exact a'.symm
+
+/-- the stage inputs are well-formed for *two* histories at once (they do not depend on the history) -/
+theorem engineIn_total₂ (big : K) (voices : List ParsedVoice) (iw : IW K) (h : VoicesWF voices iw)
+    (v0 : ParsedVoice) (hv0 : voices.head? = some v0) (ops ops' : List (CondOp K))
+    (labels : List (List Char)) (times : List (K × K))
+    (halign : (condOf (K := K) v0 ops).alignment = true → times.length = labels.length)
+    (halign' : (condOf (K := K) v0 ops').alignment = true → times.length = labels.length) :
+    ∃ inp, engineIn big voices iw labels times = .ok inp ∧ EngineWF (condOf v0 ops) inp ∧
+      EngineWF (condOf v0 ops') inp ∧ inp.duration.length = labels.length * v0.global.nstates := by
+  obtain ⟨inp, hin, hwf, hl⟩ := engineIn_total big voices iw h v0 hv0 ops labels times halign
+  obtain ⟨inp', hin', hwf', -⟩ := engineIn_total big voices iw h v0 hv0 ops' labels times halign'
+  rw [hin, Outcome.ok.injEq] at hin'
+  subst hin'
+  exact ⟨inp, hin, hwf, hwf', hl⟩
+
+/-! ### what the stage inputs are, in terms of `Models::model_stream` -/
+
+theorem sequenceOut_inv {β : Type} (l : List (Outcome Unit β)) (as : List β) (h : sequenceOut l = .ok as) :
+    as.length = l.length ∧ ∀ (i : Nat) (a : β), as[i]? = some a → l[i]? = some (.ok a) := by
+  induction l generalizing as with
+  | nil =>
+    simp only [sequenceOut, Outcome.ok.injEq] at h
+    subst h
+    exact ⟨rfl, by simp⟩
+  | cons x xs ih =>
+    cases x with
+    | err e => simp [sequenceOut, Outcome.bind] at h
+    | panic s => simp [sequenceOut, Outcome.bind] at h
+    | ok a0 =>
+      cases hxs : sequenceOut xs with
+      | err e => simp [sequenceOut, Outcome.bind, hxs] at h
+      | panic s => simp [sequenceOut, Outcome.bind, hxs] at h
+      | ok as' =>
+        simp only [sequenceOut, Outcome.bind, hxs, Outcome.ok.injEq] at h
+        subst h
+        obtain ⟨i1, i2⟩ := ih as' hxs
+        refine ⟨by simp [i1], ?_⟩
+        intro i a ha
+        cases i with
+        | zero =>
+          simp only [List.getElem?_cons_zero, Option.some.injEq] at ha
+          subst ha; rfl
+        | succ i =>
+          simp only [List.getElem?_cons_succ] at ha ⊢
+          exact i2 i a ha
+
+/-- the stage inputs, field by field: state and stream counts of the first voice, the time stamps as given, and stream
+    `i` is `Models::model_stream(i)` -/
+theorem engineIn_fields (big : K) (v0 : ParsedVoice) (vs : List ParsedVoice) (iw : IW K) (labels : List (List Char))
+    (times : List (K × K)) (inp : EngineIn K) (hin : engineIn big (v0 :: vs) iw labels times = .ok inp) :
+    inp.nstate = v0.global.nstates ∧ inp.nstream = v0.global.nstreams ∧ inp.times = times ∧
+      inp.streams.length = v0.global.nstreams ∧
+      ∀ i s, inp.streams[i]? = some s ↔
+        (i < v0.global.nstreams ∧ modelStream big (v0 :: vs) iw labels v0.global.nstates i = .ok s) := by
+  unfold engineIn at hin
+  simp only at hin
+  cases hd : modelsDuration (v0 :: vs) iw labels with
+  | err e => simp [hd, Outcome.bind] at hin
+  | panic s => simp [hd, Outcome.bind] at hin
+  | ok dur =>
+    rw [hd] at hin
+    simp only [Outcome.bind] at hin
+    split at hin
+    · rename_i streams hstr
+      simp only [Outcome.ok.injEq] at hin
+      subst hin
+      obtain ⟨hl, hi⟩ := sequenceOut_inv _ _ hstr
+      simp only [List.length_map, List.length_range] at hl
+      refine ⟨rfl, rfl, rfl, hl, ?_⟩
+      intro i s
+      constructor
+      · intro hs
+        have hlt : i < v0.global.nstreams := by
+          rw [← hl]; exact (List.getElem?_eq_some_iff.1 hs).1
+        have := hi i s hs
+        rw [List.getElem?_map, List.getElem?_range hlt] at this
+        simp only [Option.map_some, Option.some.injEq] at this
+        exact ⟨hlt, this⟩
+      · rintro ⟨hlt, hm⟩
+        have hlt' : i < streams.length := by rw [hl]; exact hlt
+        have hs : streams[i]? = some streams[i] := List.getElem?_eq_getElem hlt'
+        have := hi i _ hs
+        rw [List.getElem?_map, List.getElem?_range hlt] at this
+        simp only [Option.map_some, Option.some.injEq] at this
+        rw [hm, Outcome.ok.injEq] at this
+        simp only
+        rw [hs, this]
+    · simp at hin
+    · simp at hin
+
+/-- the delta windows of a stream of the stage inputs are the first voice's `STREAM_WIN` coefficients -/
+theorem modelStream_windows (big : K) (v0 : ParsedVoice) (vs : List ParsedVoice) (iw : IW K)
+    (labels : List (List Char)) (n i : Nat) (s : StreamIn K)
+    (h : modelStream big (v0 :: vs) iw labels n i = .ok s) :
+    ∃ s0, v0.streams[i]? = some s0 ∧ s.vectorLength = s0.info.veclen ∧
+      s.windows = s0.windows.map fun w => w.map FromFile.ofDecimal := by
+  unfold modelStream at h
+  simp only [streamOf] at h
+  cases hs0 : v0.streams[i]? with
+  | none => simp [hs0] at h
+  | some s0 =>
+    simp only [hs0] at h
+    cases h1 : modelsStream big (v0 :: vs) iw labels n i with
+    | err e => simp [h1, Outcome.bind] at h
+    | panic e => simp [h1, Outcome.bind] at h
+    | ok st =>
+      cases h2 : modelsGv (v0 :: vs) iw labels n i with
+      | err e => simp [h1, h2, Outcome.bind] at h
+      | panic e => simp [h1, h2, Outcome.bind] at h
+      | ok gv =>
+        simp only [h1, h2, Outcome.bind, Outcome.ok.injEq] at h
+        subst h
+        exact ⟨s0, rfl, rfl, rfl⟩
+
+/-! ### 3. C15 lifted: the additional half tone transposes F0 and nothing else -/
+
+/-- durations do not see the half tone — any voice set, any outcome -/
+theorem durations_halfTone (big : K) (voices : List ParsedVoice) (iw : IW K) (ops : List (CondOp K))
+    (f : Condition K → Bool) (hf : SpeedOnly f) (labels : List (List Char)) (times : List (K × K)) (ht : K) :
+    durations big voices iw (ops ++ [.ht ht]) f labels times = durations big voices iw ops f labels times := by
+  cases voices with
+  | nil => rfl
+  | cons v0 vs =>
+    unfold durations
+    simp only
+    rw [condOf_snoc_ht, hf ((condOf v0 ops).setHalfTone ht) (condOf v0 ops) rfl]
+    rfl
+
+/-- the spectrum and low-pass trajectories (every stream but log-F0) do not see the half tone — any voice set, any
+    durations, any outcome -/
+theorem stream_halfTone (big : K) (voices : List ParsedVoice) (iw : IW K) (ops : List (CondOp K))
+    (labels : List (List Char)) (times : List (K × K)) (durs : List Nat) (j : Nat) (hj : j ≠ 1) (ht : K) :
+    stream big voices iw (ops ++ [.ht ht]) labels times durs j = stream big voices iw ops labels times durs j := by
+  cases voices with
+  | nil => rfl
+  | cons v0 vs =>
+    unfold stream
+    simp only
+    rw [condOf_snoc_ht]
+    congr 1
+    funext inp
+    exact engineStream_congr _ _ inp durs j rfl rfl (fun e => absurd e hj)
+
+/-- **C15 for the whole library, the "nothing else" half** (no assumption on windows, variances or clamping; `h = 0`
+    allowed): on a well-formed voice set the generator parameters after `set_additional_half_tone(h)` and after
+    `set_additional_half_tone(0)` both exist and have the same durations, the same spectrum and low-pass
+    trajectories, and the same number of log-F0 frames. -/
+theorem params_halfTone_frame (big : K) (voices : List ParsedVoice) (iw : IW K) (h : VoicesWF voices iw)
+    (v0 : ParsedVoice) (hv0 : voices.head? = some v0) (ops : List (CondOp K)) (f : Condition K → Bool)
+    (hf : SpeedOnly f) (labels : List (List Char)) (times : List (K × K))
+    (halign : (condOf (K := K) v0 ops).alignment = true → times.length = labels.length) (ht : K) :
+    ∃ p p', params big voices iw (ops ++ [.ht 0]) f labels times = .ok p ∧
+      params big voices iw (ops ++ [.ht ht]) f labels times = .ok p' ∧
+      p'.durations = p.durations ∧ p'.spectrum = p.spectrum ∧ p'.lpf = p.lpf ∧ p'.lf0.length = p.lf0.length := by
+  obtain ⟨inp, hin, hwf, hwf', -⟩ := engineIn_total₂ big voices iw h v0 hv0 (ops ++ [.ht 0]) (ops ++ [.ht ht])
+    labels times (by rw [condOf_snoc_ht]; exact halign) (by rw [condOf_snoc_ht]; exact halign)
+  cases voices with
+  | nil => simp at hv0
+  | cons v0' vs =>
+    simp only [List.head?_cons, Option.some.injEq] at hv0
+    subst hv0
+    have hb : f (condOf v0' (ops ++ [.ht ht])) = f (condOf v0' (ops ++ [.ht 0])) :=
+      hf _ _ (by rw [condOf_snoc_ht, condOf_snoc_ht]; rfl)
+    obtain ⟨p, p', hp, hp', e1, -, e3, -, e5, -, e7⟩ := engineParams_compare (condOf v0' (ops ++ [.ht 0]))
+      (condOf v0' (ops ++ [.ht ht])) (f (condOf v0' (ops ++ [.ht 0]))) (f (condOf v0' (ops ++ [.ht ht]))) inp hwf hwf'
+      (by rw [hb, condOf_snoc_ht, condOf_snoc_ht]; exact engineDurations_congr _ _ _ inp rfl rfl)
+    refine ⟨p, p', ?_, ?_, e1, e5 ?_, e7 ?_, e3⟩
+    · rw [params_eq_engine big v0' vs iw _ f labels times inp hin]; exact hp
+    · rw [params_eq_engine big v0' vs iw _ f labels times inp hin]; exact hp'
+    · intro durs
+      rw [condOf_snoc_ht, condOf_snoc_ht]
+      exact engineStream_congr _ _ inp durs 0 rfl rfl (fun e => absurd e (by decide))
+    · intro durs
+      rw [condOf_snoc_ht, condOf_snoc_ht]
+      exact engineStream_congr _ _ inp durs 2 rfl rfl (fun e => absurd e (by decide))
+
+/-- **C15 for the whole library, with the shift.** `s1` is `Models::model_stream(1)` (log-F0) for these voices, weights
+    and labels; `thr` the log-F0 MSD threshold the history leaves. If the log-F0 windows are a static window `[1]`
+    followed by windows whose coefficients sum to zero, the (inverted) variances are non-negative and the static ones
+    positive, and no state mean reaches the 20 Hz..20 kHz clamp, then after `set_additional_half_tone(h)`, `h ≠ 0`:
+    same durations, same spectrum and low-pass trajectories, same number of log-F0 frames, and log-F0 is the
+    `set_additional_half_tone(0)` trajectory plus `h·ln2/12` on every voiced frame (no-data marker kept elsewhere). -/
+theorem params_halfTone_shift (big : K) (voices : List ParsedVoice) (iw : IW K) (h : VoicesWF voices iw)
+    (v0 : ParsedVoice) (hv0 : voices.head? = some v0) (ops : List (CondOp K)) (f : Condition K → Bool)
+    (hf : SpeedOnly f) (labels : List (List Char)) (times : List (K × K))
+    (halign : (condOf (K := K) v0 ops).alignment = true → times.length = labels.length)
+    (ht : K) (hh : ht ≠ 0)
+    (s1 : StreamIn K) (hs1 : modelStream big voices iw labels v0.global.nstates 1 = .ok s1)
+    (thr : K) (hthr : (condOf (K := K) v0 ops).msdThreshold[1]? = some thr)
+    (hstatic : s1.windows.head? = some [1]) (hsum : ∀ w ∈ s1.windows.tail, w.sum = 0)
+    (hnonneg : ∀ st ∈ s1.stream, ∀ p ∈ st.params, 0 ≤ (withIvar p).vari)
+    (hdflt : 0 ≤ (withIvar (⟨0, 0⟩ : MeanVari K)).vari)
+    (hpos : ∀ st ∈ s1.stream, 0 < (withIvar (st.params.getD 0 ⟨0, 0⟩)).vari)
+    (hu : Unclamped s1.stream ht) :
+    ∃ p p', params big voices iw (ops ++ [.ht 0]) f labels times = .ok p ∧
+      params big voices iw (ops ++ [.ht ht]) f labels times = .ok p' ∧
+      p'.durations = p.durations ∧ p'.spectrum = p.spectrum ∧ p'.lpf = p.lpf ∧ p'.lf0.length = p.lf0.length ∧
+      ∀ n, n < p.lf0.length →
+        p'.lf0.getD n [] =
+          if (maskCreate s1.stream thr p.durations).getD n false then (p.lf0.getD n []).map (· + ht * Consts.halfTone)
+          else p.lf0.getD n [] := by
+  obtain ⟨inp, hin, hwf, -⟩ := engineIn_total big voices iw h v0 hv0 (ops ++ [.ht 0])
+    labels times (by rw [condOf_snoc_ht]; exact halign)
+  have hns := (h.head v0 hv0).nstreams
+  cases voices with
+  | nil => simp at hv0
+  | cons v0' vs =>
+    simp only [List.head?_cons, Option.some.injEq] at hv0
+    subst hv0
+    obtain ⟨-, -, -, -, hstr⟩ := engineIn_fields big v0' vs iw labels times inp hin
+    have hs1' : inp.streams[1]? = some s1 := (hstr 1 s1).2 ⟨by omega, hs1⟩
+    have hb : f (condOf v0' (ops ++ [.ht ht])) = f (condOf v0' (ops ++ [.ht 0])) :=
+      hf _ _ (by rw [condOf_snoc_ht, condOf_snoc_ht]; rfl)
+    have hc : condOf (K := K) v0' (ops ++ [.ht ht]) = { condOf (K := K) v0' (ops ++ [.ht 0]) with halfTone := ht } := by
+      rw [condOf_snoc_ht, condOf_snoc_ht]; rfl
+    obtain ⟨p, p', hp, hp', rest⟩ := engineParams_halfTone (condOf v0' (ops ++ [.ht 0])) ht hh
+      (by rw [condOf_snoc_ht]; rfl) (f (condOf v0' (ops ++ [.ht 0]))) inp hwf s1 hs1' thr
+      (by rw [condOf_snoc_ht]; exact hthr) hstatic hsum hnonneg hdflt hpos hu
+    refine ⟨p, p', ?_, ?_, rest⟩
+    · rw [params_eq_engine big v0' vs iw _ f labels times inp hin]; exact hp
+    · rw [params_eq_engine big v0' vs iw _ f labels times inp hin, hb, hc]; exact hp'
+
+/-! ### 5. C11 lifted: per-stream independence -/
+
+/-- stream `j` reads the same settings under `c'` as under `c`: its own GV weight, its own MSD threshold, and — for
+    log-F0 only — the additional half tone -/
+def StreamSame (c c' : Condition K) (j : Nat) : Prop :=
+  c'.gvWeight[j]? = c.gvWeight[j]? ∧ c'.msdThreshold[j]? = c.msdThreshold[j]? ∧ (j = 1 → c'.halfTone = c.halfTone)
+
+/-- the trajectory of stream `j` is the same after two histories that leave stream `j`'s settings the same — any
+    voice set, any durations, any outcome -/
+theorem stream_congr (big : K) (voices : List ParsedVoice) (iw : IW K) (ops ops' : List (CondOp K))
+    (labels : List (List Char)) (times : List (K × K)) (durs : List Nat) (j : Nat)
+    (hs : ∀ v0, voices.head? = some v0 → StreamSame (condOf (K := K) v0 ops) (condOf v0 ops') j) :
+    stream big voices iw ops' labels times durs j = stream big voices iw ops labels times durs j := by
+  cases voices with
+  | nil => rfl
+  | cons v0 vs =>
+    obtain ⟨h1, h2, h3⟩ := hs v0 rfl
+    unfold stream
+    simp only
+    congr 1
+    funext inp
+    exact engineStream_congr _ _ inp durs j h1 h2 h3
+
+/-- the durations are the same after two histories that leave alignment and speed the same -/
+theorem durations_congr (big : K) (voices : List ParsedVoice) (iw : IW K) (ops ops' : List (CondOp K))
+    (f : Condition K → Bool) (hf : SpeedOnly f) (labels : List (List Char)) (times : List (K × K))
+    (hs : ∀ v0, voices.head? = some v0 → (condOf (K := K) v0 ops').alignment = (condOf (K := K) v0 ops).alignment ∧
+      (condOf (K := K) v0 ops').speed = (condOf (K := K) v0 ops).speed) :
+    durations big voices iw ops' f labels times = durations big voices iw ops f labels times := by
+  cases voices with
+  | nil => rfl
+  | cons v0 vs =>
+    obtain ⟨h1, h2⟩ := hs v0 rfl
+    unfold durations
+    simp only
+    rw [hf _ _ h2]
+    congr 1
+    funext inp
+    exact engineDurations_congr _ _ _ inp h1 h2
+
+theorem streamSame_snoc_msd (v0 : ParsedVoice) (ops : List (CondOp K)) (i j : Nat) (hij : j ≠ i) (x : K) :
+    StreamSame (condOf (K := K) v0 ops) (condOf v0 (ops ++ [.msd i x])) j := by
+  rw [condOf_snoc_msd]
+  split_ifs
+  · exact ⟨rfl, by simp [hij.symm], fun _ => rfl⟩
+  · exact ⟨rfl, rfl, fun _ => rfl⟩
+
+theorem streamSame_snoc_gv (v0 : ParsedVoice) (ops : List (CondOp K)) (i j : Nat) (hij : j ≠ i) (x : K) :
+    StreamSame (condOf (K := K) v0 ops) (condOf v0 (ops ++ [.gv i x])) j := by
+  rw [condOf_snoc_gv]
+  split_ifs
+  · exact ⟨by simp [hij.symm], rfl, fun _ => rfl⟩
+  · exact ⟨rfl, rfl, fun _ => rfl⟩
+
+theorem condOf_snoc_msd_frame (v0 : ParsedVoice) (ops : List (CondOp K)) (i : Nat) (x : K) :
+    (condOf (K := K) v0 (ops ++ [.msd i x])).alignment = (condOf (K := K) v0 ops).alignment ∧
+      (condOf (K := K) v0 (ops ++ [.msd i x])).speed = (condOf (K := K) v0 ops).speed := by
+  rw [condOf_snoc_msd]; split_ifs <;> exact ⟨rfl, rfl⟩
+
+theorem condOf_snoc_gv_frame (v0 : ParsedVoice) (ops : List (CondOp K)) (i : Nat) (x : K) :
+    (condOf (K := K) v0 (ops ++ [.gv i x])).alignment = (condOf (K := K) v0 ops).alignment ∧
+      (condOf (K := K) v0 (ops ++ [.gv i x])).speed = (condOf (K := K) v0 ops).speed := by
+  rw [condOf_snoc_gv]; split_ifs <;> exact ⟨rfl, rfl⟩
+
+/-- **C11 at stream level, for the whole library**: `set_msd_threshold(i, x)` leaves the trajectory of every other
+    stream unchanged (any voice set, any durations, any outcome; an out-of-range `i` changes nothing at all) -/
+theorem stream_msd_other (big : K) (voices : List ParsedVoice) (iw : IW K) (ops : List (CondOp K))
+    (labels : List (List Char)) (times : List (K × K)) (durs : List Nat) (i j : Nat) (hij : j ≠ i) (x : K) :
+    stream big voices iw (ops ++ [.msd i x]) labels times durs j = stream big voices iw ops labels times durs j :=
+  stream_congr big voices iw ops _ labels times durs j (fun v0 _ => streamSame_snoc_msd v0 ops i j hij x)
+
+/-- … and so does `set_gv_weight(i, x)` -/
+theorem stream_gv_other (big : K) (voices : List ParsedVoice) (iw : IW K) (ops : List (CondOp K))
+    (labels : List (List Char)) (times : List (K × K)) (durs : List Nat) (i j : Nat) (hij : j ≠ i) (x : K) :
+    stream big voices iw (ops ++ [.gv i x]) labels times durs j = stream big voices iw ops labels times durs j :=
+  stream_congr big voices iw ops _ labels times durs j (fun v0 _ => streamSame_snoc_gv v0 ops i j hij x)
+
+/-- neither setter changes the durations -/
+theorem durations_msd (big : K) (voices : List ParsedVoice) (iw : IW K) (ops : List (CondOp K))
+    (f : Condition K → Bool) (hf : SpeedOnly f) (labels : List (List Char)) (times : List (K × K)) (i : Nat) (x : K) :
+    durations big voices iw (ops ++ [.msd i x]) f labels times = durations big voices iw ops f labels times :=
+  durations_congr big voices iw ops _ f hf labels times (fun v0 _ => condOf_snoc_msd_frame v0 ops i x)
+
+theorem durations_gv (big : K) (voices : List ParsedVoice) (iw : IW K) (ops : List (CondOp K))
+    (f : Condition K → Bool) (hf : SpeedOnly f) (labels : List (List Char)) (times : List (K × K)) (i : Nat) (x : K) :
+    durations big voices iw (ops ++ [.gv i x]) f labels times = durations big voices iw ops f labels times :=
+  durations_congr big voices iw ops _ f hf labels times (fun v0 _ => condOf_snoc_gv_frame v0 ops i x)
+
+/-- **two histories on the same well-formed voices**: if they leave alignment and speed the same, the generator
+    parameters exist for both with the same durations and the same number of frames in every trajectory, and each
+    trajectory whose stream settings (`StreamSame`) agree is the same -/
+theorem params_congr (big : K) (voices : List ParsedVoice) (iw : IW K) (h : VoicesWF voices iw)
+    (v0 : ParsedVoice) (hv0 : voices.head? = some v0) (ops ops' : List (CondOp K)) (f : Condition K → Bool)
+    (hf : SpeedOnly f) (labels : List (List Char)) (times : List (K × K))
+    (halign : (condOf (K := K) v0 ops).alignment = true → times.length = labels.length)
+    (ha : (condOf (K := K) v0 ops').alignment = (condOf (K := K) v0 ops).alignment)
+    (hs : (condOf (K := K) v0 ops').speed = (condOf (K := K) v0 ops).speed) :
+    ∃ p p', params big voices iw ops f labels times = .ok p ∧ params big voices iw ops' f labels times = .ok p' ∧
+      p'.durations = p.durations ∧
+      p'.spectrum.length = p.spectrum.length ∧ p'.lf0.length = p.lf0.length ∧ p'.lpf.length = p.lpf.length ∧
+      (StreamSame (condOf (K := K) v0 ops) (condOf v0 ops') 0 → p'.spectrum = p.spectrum) ∧
+      (StreamSame (condOf (K := K) v0 ops) (condOf v0 ops') 1 → p'.lf0 = p.lf0) ∧
+      (StreamSame (condOf (K := K) v0 ops) (condOf v0 ops') 2 → p'.lpf = p.lpf) := by
+  obtain ⟨inp, hin, hwf, hwf', -⟩ := engineIn_total₂ big voices iw h v0 hv0 ops ops'
+    labels times halign (by rw [ha]; exact halign)
+  cases voices with
+  | nil => simp at hv0
+  | cons v0' vs =>
+    simp only [List.head?_cons, Option.some.injEq] at hv0
+    subst hv0
+    obtain ⟨p, p', hp, hp', e1, e2, e3, e4, e5, e6, e7⟩ := engineParams_compare (condOf v0' ops)
+      (condOf v0' ops') (f (condOf v0' ops)) (f (condOf v0' ops')) inp hwf hwf'
+      (by rw [hf _ _ hs]; exact engineDurations_congr _ _ _ inp ha hs)
+    refine ⟨p, p', ?_, ?_, e1, e2, e3, e4, fun hj => e5 fun durs => ?_, fun hj => e6 fun durs => ?_,
+      fun hj => e7 fun durs => ?_⟩
+    · rw [params_eq_engine big v0' vs iw _ f labels times inp hin]; exact hp
+    · rw [params_eq_engine big v0' vs iw _ f labels times inp hin]; exact hp'
+    all_goals exact engineStream_congr _ _ inp durs _ hj.1 hj.2.1 hj.2.2
+
+/-- **C11 for the whole library (threshold).** On a well-formed voice set, `set_msd_threshold(i, x)` changes at most
+    the trajectory of stream `i`: durations and frame counts are the same, and the spectrum (`i ≠ 0`), log-F0
+    (`i ≠ 1`) and low-pass (`i ≠ 2`) trajectories are the same. -/
+theorem params_msd_other (big : K) (voices : List ParsedVoice) (iw : IW K) (h : VoicesWF voices iw)
+    (v0 : ParsedVoice) (hv0 : voices.head? = some v0) (ops : List (CondOp K)) (f : Condition K → Bool)
+    (hf : SpeedOnly f) (labels : List (List Char)) (times : List (K × K))
+    (halign : (condOf (K := K) v0 ops).alignment = true → times.length = labels.length) (i : Nat) (x : K) :
+    ∃ p p', params big voices iw ops f labels times = .ok p ∧
+      params big voices iw (ops ++ [.msd i x]) f labels times = .ok p' ∧
+      p'.durations = p.durations ∧
+      p'.spectrum.length = p.spectrum.length ∧ p'.lf0.length = p.lf0.length ∧ p'.lpf.length = p.lpf.length ∧
+      (i ≠ 0 → p'.spectrum = p.spectrum) ∧ (i ≠ 1 → p'.lf0 = p.lf0) ∧ (i ≠ 2 → p'.lpf = p.lpf) := by
+  obtain ⟨a1, a2⟩ := condOf_snoc_msd_frame (K := K) v0 ops i x
+  obtain ⟨p, p', hp, hp', e1, e2, e3, e4, e5, e6, e7⟩ :=
+    params_congr big voices iw h v0 hv0 ops (ops ++ [.msd i x]) f hf labels times halign a1 a2
+  exact ⟨p, p', hp, hp', e1, e2, e3, e4,
+    fun hi => e5 (streamSame_snoc_msd v0 ops i 0 (Ne.symm hi) x),
+    fun hi => e6 (streamSame_snoc_msd v0 ops i 1 (Ne.symm hi) x),
+    fun hi => e7 (streamSame_snoc_msd v0 ops i 2 (Ne.symm hi) x)⟩
+
+/-- **C11 for the whole library (GV weight).** Likewise for `set_gv_weight(i, x)`. -/
+theorem params_gv_other (big : K) (voices : List ParsedVoice) (iw : IW K) (h : VoicesWF voices iw)
+    (v0 : ParsedVoice) (hv0 : voices.head? = some v0) (ops : List (CondOp K)) (f : Condition K → Bool)
+    (hf : SpeedOnly f) (labels : List (List Char)) (times : List (K × K))
+    (halign : (condOf (K := K) v0 ops).alignment = true → times.length = labels.length) (i : Nat) (x : K) :
+    ∃ p p', params big voices iw ops f labels times = .ok p ∧
+      params big voices iw (ops ++ [.gv i x]) f labels times = .ok p' ∧
+      p'.durations = p.durations ∧
+      p'.spectrum.length = p.spectrum.length ∧ p'.lf0.length = p.lf0.length ∧ p'.lpf.length = p.lpf.length ∧
+      (i ≠ 0 → p'.spectrum = p.spectrum) ∧ (i ≠ 1 → p'.lf0 = p.lf0) ∧ (i ≠ 2 → p'.lpf = p.lpf) := by
+  obtain ⟨a1, a2⟩ := condOf_snoc_gv_frame (K := K) v0 ops i x
+  obtain ⟨p, p', hp, hp', e1, e2, e3, e4, e5, e6, e7⟩ :=
+    params_congr big voices iw h v0 hv0 ops (ops ++ [.gv i x]) f hf labels times halign a1 a2
+  exact ⟨p, p', hp, hp', e1, e2, e3, e4,
+    fun hi => e5 (streamSame_snoc_gv v0 ops i 0 (Ne.symm hi) x),
+    fun hi => e6 (streamSame_snoc_gv v0 ops i 1 (Ne.symm hi) x),
+    fun hi => e7 (streamSame_snoc_gv v0 ops i 2 (Ne.symm hi) x)⟩
+
+/-! ### 6. C02 lifted: any history of step / query / finish on the generator `Engine::generator` builds -/
+
+/-- `Engine::generator`: the `SpeechGenerator` over the vocoder, from the stage inputs -/
+def engineGenerator (c : Condition K) (b : Bool) (inp : EngineIn K) :
+    Outcome Unit (Gen (VocoderSt K) (List K × List K × List K)) :=
+  match engineParams c b inp with
+  | .ok p =>
+    if !speechGeneratorNewOk p then .panic "speech.rs:SpeechGenerator::new"
+    else
+      let nmcp := (inp.streams[0]?.map (·.vectorLength)).getD 0
+      let nlpf := if inp.nstream > 2 then (inp.streams[2]?.map (·.vectorLength)).getD 0 else 0
+      .ok { fperiod := c.fperiod, frames := p.spectrum.zip (p.lf0.zip p.lpf), next := 0,
+            voc := VocoderSt.new nmcp nlpf c.stage c.useLogGain c.samplingFrequency c.alpha c.beta c.volume c.fperiod }
+  | .err e => .err e
+  | .panic s => .panic s
+
+/-- `Engine::synthesize` is `Engine::generator` followed by `generate_all` -/
+theorem engineSynthesize_eq_generator (fx : Fix) (c : Condition K) (b : Bool) (inp : EngineIn K) :
+    engineSynthesize fx c b inp =
+      (engineGenerator c b inp).bind (Gen.finish (vocoderFrame fx c.fperiod) true) := by
+  unfold engineSynthesize engineGenerator
+  cases engineParams c b inp with
+  | err e => rfl
+  | panic s => rfl
+  | ok p =>
+    simp only
+    cases speechGeneratorNewOk p <;> rfl
+
+theorem engineGenerator_ok (c : Condition K) (b : Bool) (inp : EngineIn K)
+    (g : Gen (VocoderSt K) (List K × List K × List K)) (h : engineGenerator c b inp = .ok g) :
+    g.fperiod = c.fperiod ∧ g.next = 0 ∧
+      ∃ p, engineParams c b inp = .ok p ∧ g.frames = p.spectrum.zip (p.lf0.zip p.lpf) := by
+  unfold engineGenerator at h
+  cases hp : engineParams c b inp with
+  | err e => simp [hp] at h
+  | panic s => simp [hp] at h
+  | ok p =>
+    simp only [hp] at h
+    cases hchk : speechGeneratorNewOk p with
+    | false => simp [hchk] at h
+    | true =>
+      simp only [hchk, Bool.not_true, Bool.false_eq_true, if_false, Outcome.ok.injEq] at h
+      subst h
+      exact ⟨rfl, rfl, p, rfl, rfl⟩
+
+/-- the generator the library builds for (voices, weights, history, labels) -/
+def generator (big : K) (voices : List ParsedVoice) (iw : IW K) (ops : List (CondOp K)) (f : Condition K → Bool)
+    (labels : List (List Char)) (times : List (K × K)) :
+    Outcome Unit (Gen (VocoderSt K) (List K × List K × List K)) :=
+  match voices with
+  | [] => .panic "voice_set.rs:first"
+  | v0 :: _ => (engineIn big voices iw labels times).bind fun inp =>
+      engineGenerator (condOf v0 ops) (f (condOf v0 ops)) inp
+
+/-- `synthesize` is `generator` followed by `generate_all` (every voice set, every outcome) -/
+theorem synthesize_eq_generator (fx : Fix) (big : K) (voices : List ParsedVoice) (iw : IW K) (ops : List (CondOp K))
+    (f : Condition K → Bool) (labels : List (List Char)) (times : List (K × K)) :
+    synthesize fx big voices iw ops f labels times =
+      (generator big voices iw ops f labels times).bind fun g => Gen.finish (vocoderFrame fx g.fperiod) true g := by
+  cases voices with
+  | nil => rfl
+  | cons v0 vs =>
+    rw [synthesize_cons]
+    unfold generator
+    simp only
+    cases hin : engineIn big (v0 :: vs) iw labels times with
+    | err e => rfl
+    | panic s => rfl
+    | ok inp =>
+      simp only [Outcome.bind]
+      rw [engineSynthesize_eq_generator]
+      cases hg : engineGenerator (condOf v0 ops) (f (condOf v0 ops)) inp with
+      | err e => rfl
+      | panic s => rfl
+      | ok g =>
+        simp only [Outcome.bind]
+        rw [(engineGenerator_ok _ _ _ g hg).1]
+
+/-- **C02 for the whole library.** Whenever the library builds a generator `g` (any voice set, weights, history,
+    labels), `synthesize` returns a waveform `w` of `fperiod × #frames` samples, and every caller history of
+    `generate_step` (any buffer) / `synthesized_frames` / `generate_all` on `g` yields exactly the observations of the
+    cursor specification over `w`. -/
+theorem generator_history_refines (fx : Fix) (big : K) (voices : List ParsedVoice) (iw : IW K)
+    (ops : List (CondOp K)) (f : Condition K → Bool) (labels : List (List Char)) (times : List (K × K))
+    (g : Gen (VocoderSt K) (List K × List K × List K)) (hg : generator big voices iw ops f labels times = .ok g) :
+    ∃ w, synthesize fx big voices iw ops f labels times = .ok w ∧ w.length = g.fperiod * g.frames.length ∧
+      ∀ hist : List (GenOp × List K),
+        runOps (vocoderFrame fx g.fperiod) true g hist = specOps w g.fperiod g.frames.length 0 hist := by
+  have hlen : ∀ (v : VocoderSt K) (fr : List K × List K × List K),
+      (vocoderFrame fx g.fperiod v fr).2.length = g.fperiod :=
+    fun v fr => vocoderFrame_length fx g.fperiod v fr
+  have hnext : g.next = 0 := by
+    cases voices with
+    | nil => simp [generator] at hg
+    | cons v0 vs =>
+      unfold generator at hg
+      simp only at hg
+      cases hin : engineIn big (v0 :: vs) iw labels times with
+      | err e => simp [hin, Outcome.bind] at hg
+      | panic s => simp [hin, Outcome.bind] at hg
+      | ok inp =>
+        simp only [hin, Outcome.bind] at hg
+        exact (engineGenerator_ok _ _ _ g hg).2.1
+  have hfresh : g = C02.fresh g.fperiod g.frames g.voc := by
+    cases g
+    simp only at hnext
+    subst hnext
+    rfl
+  refine ⟨Gen.render (vocoderFrame fx g.fperiod) g.voc g.frames, ?_, ?_, fun hist => ?_⟩
+  · rw [synthesize_eq_generator, hg]
+    simp only [Outcome.bind]
+    conv => lhs; rw [hfresh]
+    exact C02.oneshot_is_render (vocoderFrame fx g.fperiod) g.fperiod g.frames g.voc hlen
+  · rw [Gen.render_length _ g.fperiod hlen, Nat.mul_comm]
+  · conv => lhs; rw [hfresh]
+    exact C02.history_refines (vocoderFrame fx g.fperiod) g.fperiod g.frames g.voc hlen hist
+
+/-- on a well-formed voice set the generator exists; it has the history's frame period, starts at frame 0 and holds
+    one frame per duration unit -/
+theorem generator_total (big : K) (voices : List ParsedVoice) (iw : IW K) (h : VoicesWF voices iw)
+    (v0 : ParsedVoice) (hv0 : voices.head? = some v0) (ops : List (CondOp K)) (f : Condition K → Bool)
+    (labels : List (List Char)) (times : List (K × K))
+    (halign : (condOf (K := K) v0 ops).alignment = true → times.length = labels.length) :
+    ∃ g p, generator big voices iw ops f labels times = .ok g ∧ params big voices iw ops f labels times = .ok p ∧
+      g.fperiod = (condOf (K := K) v0 ops).fperiod ∧ g.next = 0 ∧ g.frames = p.spectrum.zip (p.lf0.zip p.lpf) ∧
+      g.frames.length = p.durations.sum ∧ p.durations.length = labels.length * v0.global.nstates ∧
+      ∀ d ∈ p.durations, 1 ≤ d := by
+  obtain ⟨inp, hin, hwf, hdl⟩ := engineIn_total big voices iw h v0 hv0 ops labels times halign
+  obtain ⟨durs, w, -, -, -, hW, -⟩ := engineSynthesize_total Fix.repaired (condOf v0 ops) inp hwf (f (condOf v0 ops))
+  obtain ⟨p, hp, -, hpl, hpp, -, -, -, -, l0, l1, l2⟩ := engineParams_total (condOf v0 ops) (f (condOf v0 ops)) inp hwf
+  cases voices with
+  | nil => simp at hv0
+  | cons v0' vs =>
+    simp only [List.head?_cons, Option.some.injEq] at hv0
+    subst hv0
+    rw [engineSynthesize_eq_generator] at hW
+    cases hg : engineGenerator (condOf v0' ops) (f (condOf v0' ops)) inp with
+    | err e => simp [hg, Outcome.bind] at hW
+    | panic s => simp [hg, Outcome.bind] at hW
+    | ok g =>
+      obtain ⟨g1, g2, p', hp', g3⟩ := engineGenerator_ok _ _ _ g hg
+      rw [hp, Outcome.ok.injEq] at hp'
+      subst hp'
+      refine ⟨g, p, ?_, ?_, g1, g2, g3, ?_, by rw [hpl, hdl], hpp⟩
+      · unfold generator; simp only; rw [hin]; exact hg
+      · rw [params_eq_engine big v0' vs iw _ f labels times inp hin]; exact hp
+      · rw [g3]; simp [l0, l1, l2]
+
+namespace Cex
+
+theorem tiny_duration (big : K) (l : List Char) :
+    modelsDuration [Tiny.voice] (Tiny.weights (K := K)) [l] = .ok [⟨FromFile.ofF32 0, FromFile.ofF32 0⟩] := by
+  simp [modelsDuration, blend, select, Tiny.leafModel_get,
+    sequenceOut, sequenceO, weighted, Tiny.voice, Tiny.weights, Outcome.bind, Outcome.map,
+    toModelParameter, ModelParameter.mul]
+
+theorem floor_a : ⌊(4 : ℚ) + 2⁻¹⌋₊ = 4 := by
+  rw [Nat.floor_eq_iff (by norm_num)]; norm_num
+
+theorem floor_b : ⌊(4 : ℚ) / 2 + 2⁻¹⌋₊ = 2 := by
+  rw [Nat.floor_eq_iff (by norm_num)]; norm_num
+
+theorem floor_c : ⌊(2 : ℚ) + 2⁻¹⌋₊ = 2 := by
+  rw [Nat.floor_eq_iff (by norm_num)]; norm_num
+
+theorem durs_one (c : Condition ℚ) (inp : EngineIn ℚ) (ha : c.alignment = false)
+    (hd : inp.duration = [⟨4, 4⟩]) : engineDurations c true inp = .ok [4] := by
+  simp [engineDurations, ha, hd, durationCreate, estimateDuration, roundMax1_def, floor_a]
+
+theorem durs_two (c : Condition ℚ) (inp : EngineIn ℚ) (ha : c.alignment = false) (hs : c.speed = 2)
+    (hd : inp.duration = [⟨4, 4⟩]) : engineDurations c false inp = .ok [2] := by
+  simp [engineDurations, ha, hs, hd, durationCreate, estimateDuration, roundMax1_def, floor_a,
+    estimateWithFrameLength, sumMeanVari, floor_b, floor_c, greedyLoop]
+
+section
+local instance cexTransc : Transc ℚ := ⟨fun x => x + 1, id, id, id, fun x _ => x⟩
+local instance cexConsts : Consts ℚ := ⟨10, 3, 1 / 17, 1 / 9, -10000000000, 3, 1 / 10 ^ 100⟩
+local instance cexMlpgConsts : MlpgConsts ℚ := ⟨10 ^ 19, 1 / 10 ^ 19, 10 ^ 38⟩
+local instance cexFromFile : FromFile ℚ := ⟨fun _ => 4, fun _ => 1⟩
+
+/-- a speed test that (wrongly) looks at the volume -/
+def volTest : Condition ℚ → Bool := fun c => decide (c.volume = 1)
+
+theorem cond_facts (v : ℚ) :
+    (condOf (K := ℚ) Tiny.voice ([.speed 2] ++ [.vol v])).alignment = false ∧
+    (condOf (K := ℚ) Tiny.voice ([.speed 2] ++ [.vol v])).speed = 2 ∧
+    (condOf (K := ℚ) Tiny.voice ([.speed 2] ++ [.vol v])).fperiod = 240 ∧
+    (condOf (K := ℚ) Tiny.voice ([.speed 2] ++ [.vol v])).volume = v * 10 + 1 := by
+  rw [condOf_snoc_vol]
+  refine ⟨rfl, ?_, rfl, ?_⟩
+  · show maxS (2 : ℚ) speedMin = 2
+    unfold maxS speedMin
+    norm_num
+  · show v * (Consts.db : ℚ) + 1 = v * 10 + 1
+    rfl
+
+theorem length_at (fx : Fix) (big : ℚ) (l : List Char) (v : ℚ) (n : Nat)
+    (hn : ∀ inp : EngineIn ℚ, inp.duration = [⟨4, 4⟩] →
+      engineDurations (condOf (K := ℚ) Tiny.voice ([.speed 2] ++ [.vol v]))
+        (volTest (condOf (K := ℚ) Tiny.voice ([.speed 2] ++ [.vol v]))) inp = .ok [n]) :
+    ∃ w, synthesize fx big [Tiny.voice] (Tiny.weights (K := ℚ)) ([.speed 2] ++ [.vol v]) volTest [l] [] = .ok w ∧
+      w.length = 240 * n := by
+  obtain ⟨a1, a2, a3, a4⟩ := cond_facts v
+  obtain ⟨inp, durs, w, hin, hD, hW, hwl, -, -⟩ := synthesize_total' fx big [Tiny.voice] (Tiny.weights (K := ℚ))
+    Tiny.voicesWF Tiny.voice rfl ([.speed 2] ++ [.vol v]) volTest [l] [] (by rw [a1]; intro hc; cases hc)
+  have hdur := engineIn_duration big _ _ _ _ inp hin
+  rw [tiny_duration big l, Outcome.ok.injEq] at hdur
+  rw [hn inp hdur.symm, Outcome.ok.injEq] at hD
+  subst hD
+  exact ⟨w, hW, by rw [hwl, a3]; simp⟩
+
+/-- **the hypothesis on the speed test cannot be dropped from `synthesize_volume`**: with a speed test that reads the
+    volume (`volTest`; not `SpeedOnly`), `exp 0 = 1`, the voice set `[Tiny.voice]` (which is `VoicesWF`), one label and
+    the history `set_speed(2)`, the rendering after `set_volume(1)` has 480 samples and the one after `set_volume(0)`
+    has 960 — the former is not a sample-wise multiple of the latter. -/
+theorem volume_needs_speedOnly (fx : Fix) (big : ℚ) (l : List Char) :
+    Transc.exp (0 : ℚ) = 1 ∧
+    synthesize fx big [Tiny.voice] (Tiny.weights (K := ℚ)) ([.speed 2] ++ [.vol 1]) volTest [l] [] ≠
+      (synthesize fx big [Tiny.voice] (Tiny.weights (K := ℚ)) ([.speed 2] ++ [.vol 0]) volTest [l] []).map
+        fun w => w.map (· * Transc.exp ((1 : ℚ) * Consts.db)) := by
+  refine ⟨by show (0 : ℚ) + 1 = 1; norm_num, ?_⟩
+  obtain ⟨w1, h1, l1⟩ := length_at fx big l 1 2 (fun inp hd => by
+    obtain ⟨a1, a2, a3, a4⟩ := cond_facts 1
+    have : volTest (condOf (K := ℚ) Tiny.voice ([.speed 2] ++ [.vol 1])) = false := by
+      unfold volTest; rw [a4]; norm_num
+    rw [this]; exact durs_two _ inp a1 a2 hd)
+  obtain ⟨w0, h0, l0⟩ := length_at fx big l 0 4 (fun inp hd => by
+    obtain ⟨a1, a2, a3, a4⟩ := cond_facts 0
+    have : volTest (condOf (K := ℚ) Tiny.voice ([.speed 2] ++ [.vol 0])) = true := by
+      unfold volTest; rw [a4]; norm_num
+    rw [this]; exact durs_one _ inp a1 hd)
+  rw [h1, h0]
+  intro he
+  simp only [Outcome.map, Outcome.ok.injEq] at he
+  have := congrArg List.length he
+  rw [List.length_map, l1, l0] at this
+  omega
+
+end
+
+end Cex
 
 end Synth
 end Jb
